@@ -688,7 +688,7 @@ def _subtree(args):
 
 
 def enumerate_all(kinds, workers, coarse: Optional[frozenset] = None, procs: int = 1, depth: int = 5,
-                  gate_fin: bool = False, budget_s: Optional[float] = None):
+                  gate_fin: bool = False, budget_s: Optional[float] = None, pool=None):
     """All maximal schedules, enumerated in `procs` processes (sub-trees below the distinct
     prefixes of length `depth`); result order is deterministic.  Returns (observations,
     truncated) - truncated iff the wall-clock budget (only ever reached when the protocol
@@ -698,14 +698,20 @@ def enumerate_all(kinds, workers, coarse: Optional[frozenset] = None, procs: int
     for ch, _ in all_schedules(kinds, workers, coarse, hi=depth, gate_fin=gate_fin, deadline=deadline):
         roots.append(ch[:depth])
     tasks = [(kinds, workers, coarse, r, depth, gate_fin, deadline) for r in roots]
-    if procs <= 1:
+    if pool is not None:
+        parts = pool.map(_subtree, tasks, chunksize=1)
+    elif procs <= 1:
         parts = [_subtree(t) for t in tasks]
     else:
-        import multiprocessing as mp
-
-        with mp.get_context("fork").Pool(min(procs, len(roots))) as pool:
-            parts = pool.map(_subtree, tasks, chunksize=1)
+        with make_pool(min(procs, len(roots))) as pl:
+            parts = pl.map(_subtree, tasks, chunksize=1)
     return [o for part, _ in parts for o in part], any(cut for _, cut in parts)
+
+
+def make_pool(procs: int):
+    import multiprocessing as mp
+
+    return mp.get_context("fork").Pool(procs)
 
 
 def run_random(kinds, workers, seed: int, stutter_p: float = 0.15, gate_fin: bool = False):
@@ -739,13 +745,16 @@ def _random_batch(args):
     return [observe(run_random(kinds, workers, sd, p, gate)) for sd in seeds]
 
 
-def random_runs(kinds, workers, seeds: List[int], procs: int = 1, stutter_p: float = 0.15, gate_fin: bool = False):
-    if procs <= 1 or len(seeds) < 64:
+def random_runs(kinds, workers, seeds: List[int], procs: int = 1, stutter_p: float = 0.15, gate_fin: bool = False,
+                pool=None):
+    if (procs <= 1 and pool is None) or len(seeds) < 64:
         return _random_batch((kinds, workers, seeds, stutter_p, gate_fin))
-    import multiprocessing as mp
-
     k = max(1, len(seeds) // (procs * 4))
     chunks = [seeds[i:i + k] for i in range(0, len(seeds), k)]
-    with mp.get_context("fork").Pool(procs) as pool:
-        parts = pool.map(_random_batch, [(kinds, workers, c, stutter_p, gate_fin) for c in chunks], chunksize=1)
+    tasks = [(kinds, workers, c, stutter_p, gate_fin) for c in chunks]
+    if pool is not None:
+        parts = pool.map(_random_batch, tasks, chunksize=1)
+    else:
+        with make_pool(procs) as pl:
+            parts = pl.map(_random_batch, tasks, chunksize=1)
     return [o for part in parts for o in part]
